@@ -1,4 +1,5 @@
 """C04  A failing step never yields a successful run. (composition of the funnel contracts and the commit-order contracts)"""
+from contracts import findings_natives as KF
 from contracts.common import Item
 from contracts import base as BA, streams as S, dumpers as DM
 from contracts import C18 as K18, C16 as K16
@@ -20,4 +21,5 @@ ITEMS = [
     Item('stream.res_writer', S.sym_res_writer, [], 'dataflows/processors/stream.py::stream.res_writer'),
     Item('DumperBase.process_resources', DM.sym_process_resources, [], DM.D + 'dumper_base.py::DumperBase.process_resources'),
     Item('FileDumper.rows_processor', DM.sym_rows_processor, [], DM.D + 'file_dumper.py::FileDumper.rows_processor'),
+    Item('recorded-findings', None, [('bounded', KF.nat_findings_parallelize_errors)], 'dataflows/processors/parallelize.py::work'),
 ]
